@@ -301,6 +301,12 @@ func marshalBlob(fr *frame, codec string, t types.Type, v value) []value {
 		t, v = pt.Elem(), *p
 	}
 	snap := deepCopy(copyMode{codec}, t, v, 0)
+	if codec == "proto" {
+		// a message whose fields all hold their zero value encodes to no bytes at all
+		if z := protoIsZero(fr, t, snap, 0); z.IsTrue() || (!z.IsFalse() && fr.decide(z)) {
+			return []value{}
+		}
+	}
 	fr.i.ps.blobSeq++
 	return []value{&blobCell{codec: codec, typ: t, snap: snap, id: fr.i.ps.blobSeq}}
 }
@@ -516,4 +522,44 @@ func convertShape(m copyMode, st, dt types.Type, v value, depth int) (value, boo
 		return out, true
 	}
 	return nil, false
+}
+
+// protoIsZero: does a gogo-proto message snapshot encode to zero bytes? proto3 omits every field
+// that holds its zero value: numbers 0, false, "", empty bytes / repeated fields / maps, nil
+// sub-messages and nil custom types. A non-nil pointer (sub-message or custom type) is encoded
+// even when empty. The answer is a term because scalar fields may be symbolic.
+func protoIsZero(fr *frame, t types.Type, v value, depth int) *term.Term {
+	if depth > 20 {
+		return term.False
+	}
+	switch x := v.(type) {
+	case nil:
+		return term.True
+	case symv, bool, int, int8, int16, int32, int64, uint, uint8, uint16, uint32, uint64, uintptr, float32, float64, string, *symStr:
+		return eqTerm(fr, t, v, zero(t))
+	case *value:
+		return term.BoolConst(x == nil)
+	case []value:
+		return term.BoolConst(len(x) == 0)
+	case *omap:
+		return term.BoolConst(x == nil || len(x.keys) == 0)
+	case iface:
+		return term.BoolConst(x.t == nil)
+	case structure:
+		st, ok := t.Underlying().(*types.Struct)
+		if !ok {
+			return term.False
+		}
+		res := term.True
+		for i := range x {
+			if strings.HasPrefix(st.Field(i).Name(), "XXX_") {
+				continue
+			}
+			res = term.And(res, protoIsZero(fr, st.Field(i).Type(), x[i], depth+1))
+		}
+		return res
+	case array:
+		return term.False
+	}
+	return term.False
 }
